@@ -202,10 +202,16 @@ func checkC06(r *Run) {
 		var oc outcome
 		ctl := NewCtl()
 		disk := NewDisk(r, ctl)
+		// every execution-phase read parks on a gate, and so do the JSON hand-offs: the two
+		// sides of a join and the parser pool are interleaved by the tape, not by the Go scheduler
+		for _, tb := range []*c06Table{main, sub} {
+			disk.Plan(tb.file, 0, OpenPlan{ErrAt: -1})
+			disk.PlanRest(tb.file, OpenPlan{ErrAt: -1, Gate: true})
+		}
 		if arm != nil {
 			arm(disk)
 		}
-		installSim(ctl, disk)
+		installSim(ctl, disk, "json.worker.send", "json.reader.submit", "json.reader.done")
 		defer installSim(nil, nil)
 		planned, err := PlanSQL(bubbleCtx(), sql, map[string]*SimTable{}, optimize)
 		if err != nil {
@@ -218,7 +224,7 @@ func checkC06(r *Run) {
 			return nil
 		}
 		g := RunGatedPool(r, planned.Node, workers, ctl, produce, func(execution.ProduceContext, execution.MetadataMessage) error { return nil },
-			func(en []string) int { return 0 }, 1000)
+			func(en []string) int { return t.Draw(len(en)) }, 200000)
 		oc.runErr = g.Err
 		oc.deadlock = g.Deadlock || !g.Finished
 		oc.fired = disk.FiredCount("read_error")
@@ -271,7 +277,7 @@ func checkC06(r *Run) {
 		if previewPhase {
 			ordinal = 0
 		}
-		arm = func(d *Disk) { d.Plan(target.file, ordinal, OpenPlan{ErrAt: k}) }
+		arm = func(d *Disk) { d.Plan(target.file, ordinal, OpenPlan{ErrAt: k, Gate: ordinal > 0}) }
 		r.Log("fault: EIO on %s after %d of %d bytes (open #%d)", target.file, k, sz, ordinal)
 	case "malformed_row":
 		target.write("malformed", 0)
